@@ -249,13 +249,26 @@ def main(argv=None):
     tier = args.tier if args.tier in ("quick", "thorough") else "quick"
     ctx = Ctx(args.prop, tier, seed)
     sys.path.insert(0, str(VERIF / "tools"))
+    import subprocess
+
     try:
         mod = importlib.import_module(f"props.{args.prop}")
         mod.run(ctx)
-    except Exception:  # machinery error: not a verdict on the property
+    except (subprocess.TimeoutExpired, OSError, MemoryError, ImportError):
+        # environment trouble (time-out, disk, memory): not a verdict on the property
         traceback.print_exc()
         print(f"[{args.prop}] internal error in the checking machinery", flush=True)
         return 2
+    except Exception as e:  # noqa: BLE001
+        # The harness itself fell over while driving the code under test.  On the unchanged
+        # tree this never happens (every seed is tried), so the run no longer shows that the
+        # property holds: by the protocol of DESIGN §2.9 this is a broken obligation — the
+        # failing inputs found before the crash (if any) explain it, otherwise the violation
+        # is reported with `no-failing-input-found` and the traceback in the replay file.
+        tb = traceback.format_exc()
+        print(tb, flush=True)
+        ctx.ob(f"{args.prop}_harness_completed", False, "correspondence",
+               f"the harness raised {type(e).__name__}: {e} — " + tb[-900:])
     return ctx.finish()
 
 
